@@ -62,3 +62,90 @@ int al_iter_remove(int it) { return idx(list_iterator_remove(&iters[it])); }
 int al_empty(int l) { return list_empty(&lists[l]); }
 int al_peek(int l) { return idx(list_peek(&lists[l])); }
 int al_next_is_null(int n) { return nodes[n].link.next == NULL; }
+
+/* ---- long lists (custom stage): n nodes in one list; a counter narrower than the list is long shows only here.
+ * Returns 0 and leaves msg untouched if everything agrees with the obvious sequence semantics. */
+#include <stdio.h>
+int al_long_list(unsigned n, unsigned salt, char *msg, size_t msglen)
+{
+	anode_t *big = calloc(n + 2, sizeof(*big)), *srt = NULL;
+	list_t l = LIST_VAR_INIT, s = LIST_VAR_INIT;
+	list_iterator_t it;
+	int rc = 1;
+#define LFAIL(...)                                    \
+	do {                                          \
+		snprintf(msg, msglen, __VA_ARGS__);   \
+		goto out;                             \
+	} while (0)
+	for (unsigned i = 0; i < n; i++) {
+		big[i].key = (int)i;
+		list_insert(&l, &big[i].link);
+	}
+	/* membership and iterator position at both ends and around 2^8 / 2^16 */
+	unsigned probe[] = { 0, 1, 255, 256, 257, 65534, 65535, 65536, 65537, n - 2, n - 1, (salt * 2654435761u) % n };
+	for (unsigned k = 0; k < sizeof probe / sizeof *probe; k++) {
+		unsigned i = probe[k];
+		if (i >= n)
+			continue;
+		if (!list_contains(&l, &big[i].link, NULL))
+			LFAIL("list of %u nodes: list_contains(node at position %u) returned false", n, i);
+		if (!list_contains(&l, &big[i].link, &it))
+			LFAIL("list of %u nodes: list_contains(node at position %u, iterator) returned false", n, i);
+		list_node_t *nx = list_iterator_next(&it);
+		if (nx != (i + 1 < n ? &big[i + 1].link : NULL))
+			LFAIL("list of %u nodes: after list_contains positioned the iterator at %u, list_iterator_next is not position %u", n, i, i + 1);
+	}
+	if (list_contains(&l, &big[n].link, NULL))
+		LFAIL("list of %u nodes: list_contains(non-member) returned true", n);
+	/* removal far down the list, then a full traversal */
+	unsigned victim = n > 65600 ? 65540 : n / 2;
+	if (!list_remove(&l, &big[victim].link))
+		LFAIL("list of %u nodes: list_remove(node at position %u) returned false", n, victim);
+	if (list_remove(&l, &big[victim].link))
+		LFAIL("list of %u nodes: list_remove of a node that was just removed returned true", n);
+	unsigned cnt = 0, expect = 0;
+	for (list_node_t *p = list_iterate(&l, &it); p; p = list_iterator_next(&it), cnt++, expect++) {
+		if (expect == victim)
+			expect++;
+		if (p != &big[expect].link)
+			LFAIL("list of %u nodes: traversal after removing position %u yields the wrong node at index %u", n, victim, cnt);
+	}
+	if (cnt != n - 1)
+		LFAIL("list of %u nodes: traversal after one removal yields %u nodes", n, cnt);
+	/* tail insertion still lands at the end; head extraction yields position 0 */
+	list_insert(&l, &big[victim].link);
+	if (!list_contains(&l, &big[victim].link, &it) || list_iterator_next(&it) != NULL)
+		LFAIL("list of %u nodes: a node inserted at the tail is not the last one", n);
+	if (list_extract(&l) != &big[0].link)
+		LFAIL("list of %u nodes: list_extract did not return the head", n);
+	/* sorted insertion into a long sorted list: every third key, then keys in between, at the ends, and equal ones */
+	srt = calloc(n + 8, sizeof(*srt));
+	for (unsigned i = 0; i < n; i++) {
+		srt[i].key = (int)(3 * i);
+		list_insert_sorted(&s, &srt[i].link, cmp);
+	}
+	int extra[] = { -5, 3 * 70, 3 * 65536 + 1, 3 * 65536, (int)(3 * (n - 1)), (int)(3 * n + 7), 1, (int)(3 * (n / 2) + 2) };
+	for (unsigned k = 0; k < 8; k++) {
+		srt[n + k].key = extra[k];
+		list_insert_sorted(&s, &srt[n + k].link, cmp);
+	}
+	cnt = 0;
+	list_node_t *prev = NULL;
+	for (list_node_t *p = list_iterate(&s, &it); p; prev = p, p = list_iterator_next(&it), cnt++) {
+		if (!prev)
+			continue;
+		anode_t *a = containerof(prev, anode_t, link), *b = containerof(p, anode_t, link);
+		if (a->key > b->key)
+			LFAIL("sorted list of %u nodes: key %d precedes key %d after sorted insertions", n, a->key, b->key);
+		if (a->key == b->key && a > b)
+			LFAIL("sorted list of %u nodes: a node inserted later sits before an existing node with the same key %d", n, a->key);
+	}
+	if (cnt != n + 8)
+		LFAIL("sorted list of %u nodes: %u nodes found after %u insertions", n, cnt, n + 8);
+	rc = 0;
+out:
+	free(srt);
+	free(big);
+	return rc;
+#undef LFAIL
+}
